@@ -209,6 +209,19 @@ Theorem c09_addjitter_vjp_adjoint :
 Proof. intros. split; [exact: addjitter_differential | exact: addjitter_vjp_adjoint]. Qed.
 Print Assumptions c09_addjitter_vjp_adjoint.
 
+(* AddJitterOp forward with its retry loop, for EVERY outcome sequence of the Cholesky attempts:
+   the result is x + (sigsq_init + jitter_k) I with jitter_k the k-th member of the documented
+   sequence 0, init, init*growth, ... where k = number of failed attempts (no accumulation of the
+   shifts of failed rounds); and the assertion fails exactly when no attempt succeeds *)
+Theorem c09_addjitter_loop_no_accumulation :
+  forall (F : fieldType) (n : nat) (X : 'M[F]_n) (sigsq init growth : F) (oracle : list bool),
+    (init != 0 -> growth != 0 -> has id oracle ->
+       addjitter_op X sigsq init growth oracle =
+       Some (X + (sigsq + jitter_seq init growth (find id oracle))%:M))%R /\
+    (~~ has id oracle -> addjitter_op X sigsq init growth oracle = None).
+Proof. intros. split; [exact: addjitter_op_no_accumulation | exact: addjitter_op_exhausted]. Qed.
+Print Assumptions c09_addjitter_loop_no_accumulation.
+
 Example c09_example_chol :
   (2%:R : rat)%R != 0%R /\ is_trig_mx (1%:M : 'M[rat]_3)%R /\ ((1%:M : 'M[rat]_3)%R \in unitmx).
 Proof. split; [by [] | split; [exact: is_diag_mx_is_trig (scalar_mx_is_diag _ _) | exact: unitmx1]]. Qed.
